@@ -109,6 +109,12 @@ static coap_context_t *mk_server(coap_endpoint_t **ep, int with_oscore, int with
   *ep = vn_new_server_ep(ctx);
   r = coap_resource_init(coap_make_str_const("canary"), 0);
   coap_register_request_handler(r, COAP_REQUEST_GET, h_canary);
+  /* attributes for the /.well-known/core filter code: multi-valued, quoted, empty */
+  coap_add_attr(r, coap_make_str_const("rt"), coap_make_str_const("\"temperature-c outdoor\""), 0);
+  coap_add_attr(r, coap_make_str_const("if"), coap_make_str_const("\"sensor core.b\""), 0);
+  coap_add_attr(r, coap_make_str_const("title"), coap_make_str_const("\"Ma\xc3\x9f [1]\""), 0);
+  coap_add_attr(r, coap_make_str_const("obs"), NULL, 0);
+  coap_add_attr(r, coap_make_str_const("ct"), coap_make_str_const("40"), 0);
   coap_add_resource(ctx, r);
   r = coap_resource_init(coap_make_str_const("obs"), 0);
   coap_register_request_handler(r, COAP_REQUEST_GET, h_obs);
@@ -171,7 +177,8 @@ static void server_case(const char *state) {
   if (!srv || !ep) { puts("SETUPFAIL"); return; }
   vn_addr4(&peer, 0x0a000001u, 40001);
   vn_addr4(&peer2, 0x0a000002u, 40002);
-  if (!strcmp(state, "obs")) {
+  if (!strcmp(state, "idle")) coap_context_set_max_idle_sessions(srv, 2);
+  if (!strcmp(state, "obs") || !strcmp(state, "idle")) {
     static const uint8_t reg[] = {0x42, 0x01, 0x10, 0x01, 0xaa, 0xbb, 0x60, 0x53, 'o', 'b', 's'};
     vn_inject_ep(srv, ep, &peer, NULL, reg, sizeof(reg));
     obs_counter++;
@@ -209,15 +216,30 @@ static void server_case(const char *state) {
   (void)setup_handlers;
   for (int i = 2; i < vntok; i++) {
     size_t n;
-    uint8_t *b = bytes_of_tok(vtok[i], &n);
+    /* "s<k>:<hex>": the datagram comes from another source port (a new session) */
+    const char *tk = vtok[i];
+    coap_address_t from = peer;
+    if (tk[0] == 's' && tk[1] >= '0' && tk[1] <= '9' && tk[2] == ':') {
+      vn_addr4(&from, 0x0a000001u, (uint16_t)(41000 + (tk[1] - '0')));
+      tk += 3;
+    }
+    uint8_t *b = bytes_of_tok(tk, &n);
     int h0 = n_handler;
     size_t o0 = vn_nout;
-    vn_inject_ep(srv, ep, &peer, NULL, b, n);
+    vn_inject_ep(srv, ep, &from, NULL, b, n);
     printf("i%d=%d:%zu:", i - 2, n_handler - h0, vn_nout - o0);
     show_first_reply(o0);
     fputc(' ', stdout);
     free(b);
     vn_advance(10);
+    vn_prepare(srv);
+  }
+  if (!strcmp(state, "obs") || !strcmp(state, "idle")) {
+    /* the observation set up before the hostile input is notified again: whatever the input
+     * did to sessions and observers, the observer list must still point at live objects */
+    obs_counter++;
+    coap_resource_notify_observers(coap_get_resource_from_uri_path(srv,
+                                   coap_make_str_const("obs")), NULL);
     vn_prepare(srv);
   }
   /* canary right away from the same peer and from a fresh one, then again after every timer
